@@ -1192,6 +1192,9 @@ class FunctionRun:
                         if r2 is not None and r2[0] == "k" and r2[1][0] == "L":
                             ns = dict(ns)
                             ns[("T", r2[1])] = rref[1]
+                        elif r2 is None:
+                            # `(untracked = call()) == x`: the value of the assignment is still the call result
+                            r2 = rref
                         tagged.append((ns, v2, r2))
                     outs = tagged
                 res += outs
